@@ -5622,6 +5622,15 @@ impl<'a, const HAS_CR: bool> Parser<'a, HAS_CR> {
                     }
                 }
             }
+            // A block scalar that is the document's root node, on a line of
+            // its own. Its body is not plain text: a `: ` or ` #` inside it is
+            // content, so it cannot go through the plain-scalar arm below the
+            // way a `|`-led line nested in a container still does (there
+            // `YamlCursor::value` re-reads the header from the node's text).
+            Some(b'|' | b'>') if self.type_stack.len() <= 1 => {
+                self.close_deeper_indents(indent);
+                self.parse_block_scalar(indent)?;
+            }
             Some(b'*') => {
                 // Alias - could be a standalone value or a key in a mapping
                 // Check if this is `*alias : value` pattern (alias as mapping key)
